@@ -1,0 +1,27 @@
+//go:build verif
+
+package webdav
+
+import (
+	"github.com/emersion/go-webdav/internal"
+)
+
+// Verification hooks (build tag "verif"): thin wrappers that expose unexported
+// functions to the external verification harness. Add-only; not part of the
+// library when the tag is off.
+
+func VerifCheckConditionalMatches(fi *FileInfo, ifMatch, ifNoneMatch ConditionalMatch) error {
+	return checkConditionalMatches(fi, ifMatch, ifNoneMatch)
+}
+
+func VerifLocalPath(fs LocalFileSystem, name string) (string, error) {
+	return fs.localPath(name)
+}
+
+func VerifExternalPath(fs LocalFileSystem, name string) (string, error) {
+	return fs.externalPath(name)
+}
+
+func VerifFileInfoFromResponse(resp *internal.Response) (*FileInfo, error) {
+	return fileInfoFromResponse(resp)
+}
